@@ -398,7 +398,7 @@ class Interp:
     def _number_truth(self, av, node, fr):
         """a value that is evidently a number of the data (an element or a reduction of a column / an array, arithmetic on such, a
         position) is used as a truth value: 0 is a legitimate number, and it is the one that takes the other branch"""
-        if not isinstance(av, (Val, Unk)) or getattr(av, "given", False):
+        if not isinstance(av, (Val, Unk)) or getattr(av, "given", False) or getattr(av, "list_of_positions", False):
             return
         t = to_term(av)
         # what is tested, with negations stripped
